@@ -271,6 +271,8 @@ func (ex *Exec) load(st *State, p Val) Val {
 	}
 	if cv, ok := st.cells[p.Arr+"@"+p.T]; ok {
 		cv.Typ = el
+		cv.Origin = p.Arr
+		cv.OriginRef = p.T
 		return cv
 	}
 	t := st.read(p.Arr, so, p.T)
